@@ -103,11 +103,26 @@ CHECKS = [
                 "regex. cp:coreProperties is abstracted to one optional child per property. XSD validity of core.xml and the "
                 "save/re-open leg are bounded only. F9 and F26 repaired by fix: commits.",
     },
+    {
+        "property_id": "C15",
+        "technique": "contract-based deductive verification (pyvc over the real image helpers; chained contracts; z3 linear/non-linear real arithmetic)",
+        "category": "proof",
+        "text": "Image.dpi per input kind (absent, real pair, int pair, non-numeric components, non-tuple): each component in 1..2048, "
+                "round(value) when plausible else 72; ImagePart._native_size = floor(914400*px/dpi) >= 446 with no division by zero "
+                "given the dpi contract; ImagePart.scale: identity / native / aspect ratio within half an EMU; Image.ext and "
+                "content_type over the format table extracted from the source (ground; every pair is a Default pair of the writer); "
+                "_ImageParts._find_by_sha1 by loop invariant (finds a part with the digest iff one exists) and get_or_add_image_part "
+                "(creates only when absent, hence one part per digest); placeholder crop arithmetic (one axis, symmetric, aspect "
+                "ratio of the view exactly).",
+        "note": "Assumed: Pillow reports format / pixel size >= 1x1 / dpi; SHA-1 injective on the inputs at hand; IEEE doubles as reals. "
+                "_ImageParts.__iter__ (dedupe generator) enters as a ghost sequence. Byte-exactness, part naming across slides, "
+                "misleading extensions and save/re-open are covered by the bounded C15.native_images job only (never counted as proved).",
+    },
 ]
 
 _PENDING = "check not built yet in this session (planned, see DESIGN.md section 5)"
 NOT_APPLICABLE = [
     {"property_id": p, "reason": _PENDING}
-    for p in ["C01", "C02", "C03", "C04", "C05", "C07", "C09", "C12", "C13", "C14", "C15", "C16",
+    for p in ["C01", "C02", "C03", "C04", "C05", "C07", "C09", "C12", "C13", "C14", "C16",
               "C19"]
 ]
